@@ -124,11 +124,17 @@ def run(ctx):
                     cid = len(wcases) + 1
                     wcases.append({"id": cid, "input": {"family": "bytes", "len": len(data), "seed": 0, "bytes": data},
                                    "opts": dict(po, ccs=ccs), "calls": calls, "save": os.path.join(files, "%d.lz4" % cid), "noflush": False, "hist": -1})
+    # a legacy frame with an incompressible 8 MiB block (the one block the legacy Writer stores instead of compressing; how
+    # it marks it is C09's known finding - here only the round trip through the package's own Reader is judged)
+    cid = len(wcases) + 1
+    wcases.append({"id": cid, "input": {"family": "random", "len": fl.LEGACY_BLOCK + 5, "seed": 8, "p1": 1},
+                   "opts": {"code": 7, "bcs": False, "ccs": False, "level": 0, "conc": 1, "legacy": True, "handler": False},
+                   "calls": [{"op": "write", "n": fl.LEGACY_BLOCK + 5}, {"op": "close"}], "save": os.path.join(files, "%d.lz4" % cid), "noflush": True, "hist": -2})
     wrecs, faults = fl.shard_run(b, "frame-write", wcases, d, "w")
     if faults:
         raise vlib.MachineryFault("frame-write failed: %s" % faults[0]["stderr"][-800:])
     ctx.evaluations += len(wrecs)
-    wruns = [wrecs[c["id"]] for c in wcases]
+    wruns = [wrecs[c["id"]] for c in wcases if c["hist"] != -2]      # (the legacy raw block is C09's known finding: Reader side only)
     by_w = {c["id"]: c for c in wcases}
 
     # the Writer side: model binding and validity of what was emitted
@@ -153,6 +159,8 @@ def run(ctx):
     for c in wcases:
         B = fl.block_of(c["opts"])
         cfgs = reader_cfgs(rnd, B, 2 if q else 4, c["input"]["len"])
+        if c["hist"] == -2:
+            cfgs = [{"conc": 1, "mode": "writeto", "extra": 1}, {"conc": 4, "mode": "read", "bufs": [1 << 20], "extra": 1}]
         if c["hist"] == -1:
             cfgs = [{"conc": 1, "mode": "read", "bufs": [4096], "extra": 2}, {"conc": 1, "mode": "writeto", "extra": 2},
                     {"conc": 1, "mode": "read", "bufs": [7], "extra": 2}, {"conc": 4, "mode": "read", "bufs": [B], "extra": 2}]
